@@ -10,7 +10,9 @@ M=$(cd "$1" && pwd); shift
 WT=/tmp/wt/eval_$$
 OUT=$M/eval.out
 {
-git -C /repo worktree add -q --detach $WT HEAD || exit 9
+BASE=${BASE:-$(cat $M/BASE 2>/dev/null || echo HEAD)}
+git -C /repo worktree add -q --detach $WT $BASE || exit 9
+echo "base: $BASE"
 cd $WT
 cp $M/demo.py $WT/demo_mut.py
 timeout 600 /venv/bin/python demo_mut.py > /tmp/demo_without.$$ 2>&1; DWO=$?
